@@ -49,7 +49,7 @@ def prove(module="IdxProofs", stretch=1, timeout=1500, mutate=None):
 
 THEOREMS_D = ["PadAmounts", "AnalysisLenAll", "AnalysisSrcAll", "SynthesisAll", "ModEqZero", "Half"]
 THEOREMS_S = ["SwtPads", "SwtFullResolution", "SwtSrcAll", "ModAdd", "SwtShiftEquivariant"]
-THEOREMS_T = ["ColdCountAll", "ColdPosAll", "ColdSrcAll"]
+THEOREMS_T = ["ColdCountAll", "ColdPosAll", "ColdSrcAll", "IfiltPosAll"]
 THEOREMS_H = ["PadMatchesPywtAll", "PadInRangeAll", "RollPlainIsIdx", "RollPlainIsCyclic", "ModeCodesRoundTrip", "PrepContractHolds"]
 THEOREMS = ["SrcExtRange", "SrcExtInterior", "HelperSymmIsSymmetric", "HelperWrapIsPeriodic", "HelperTorchReflectIsReflect",
             "RollIsCyclic", "PeriodicPeriod", "SymmetricPeriod", "SymmetricMirror", "ReflectMirror", "CoeffLenFacts"]
